@@ -333,6 +333,12 @@ func (r *RolloutReconciler) handleNormalRolling(c *RolloutContext) error {
 	}
 	// in case user modifies it with inappropriate value
 	util.CheckNextBatchIndexWithCorrect(c.Rollout)
+	// the release managers work on the (deep-copied) new status, which needs the same correction
+	if sub := c.NewStatus.GetSubStatus(); sub != nil {
+		if next := sub.NextStepIndex; next <= 0 || next > int32(len(c.Rollout.Spec.Strategy.GetSteps())) {
+			sub.NextStepIndex = util.NextBatchIndex(c.Rollout, sub.CurrentStepIndex)
+		}
+	}
 
 	releaseManager, err := r.getReleaseManager(c.Rollout)
 	if err != nil {
